@@ -270,6 +270,34 @@ def correspondence(ctx, want_driver=True):
                          {"program": text, "observer": oname})
         lines.append(encode(w, prog))
         recs.append((text, raised, final, trace))
+    # --- spec oracle: outside all blocks every setting reports its documented default (docstring of the real class)
+    import ast as _ast
+    import re as _re
+    for n in w.exported:
+        cls = w.real[n]
+        doc = cls.__doc__ or ""
+        checks = []
+        m = _re.search(r"\(?Default:\s*([^\s)]+)\)?", doc)
+        obs = w.observers(n)
+        if m and "on()" in obs:
+            checks.append(("on()", m.group(1)))
+        elif m and "value()" in obs:
+            checks.append(("value()", m.group(1)))
+        for ty, txt in _re.findall(r"Default for `(float|double|half)`:\s*([^\s]+)", doc):
+            checks.append((f"value(torch.{ty})", txt))
+        for oname, txt in checks:
+            if oname not in obs:
+                continue
+            try:
+                want = _ast.literal_eval(txt)
+            except Exception:
+                want = txt.rstrip(".")
+            got = obs[oname]()
+            same = (got == want) if not isinstance(want, str) or isinstance(got, str) else (canon(got) == want)
+            ctx.case(f"default {n}.{oname}", nontrivial=True)
+            if not same:
+                ctx.fail(f"default:{n}.{oname}", f"outside all blocks {n}.{oname} reports {got!r}; the class documents "
+                         f"Default: {txt}", {"class": n, "observer": oname, "documented": txt, "got": repr(got)})
     ctx.notes["classes_exercised"] = len(kinds)
     ctx.notes["blocks_per_class_min"] = min(kinds.values()) if kinds else 0
     if not want_driver:
